@@ -37,6 +37,17 @@ func TestDebugPrio(t *testing.T) {
 		}
 		rng := r.Cfg.caseRNG(fam, i)
 		sc := genPrioScenario(rng, prioGen{Vers: vers, Dividers: allDividers, Mode: mode})
+		if os.Getenv("VERIF_DEBUG_FILTER") == "A" {
+			hasA := false
+			for _, op := range sc.Script {
+				if op.K == "A" {
+					hasA = true
+				}
+			}
+			if !hasA || sc.H < 30 {
+				continue
+			}
+		}
 		rep := 1
 		if v := os.Getenv("VERIF_DEBUG_REPEAT"); v != "" {
 			rep, _ = strconv.Atoi(v)
